@@ -22,10 +22,42 @@ STR = ("glob", "ext:builtins.str")
 ISINSTANCE = ("glob", "ext:builtins.isinstance")
 
 
+_PROG = {}
+
+
+def _translate_table(tab):
+    """the {char: replacement} literal behind  x.translate(<module constant = str.maketrans({...})>), or None"""
+    prog = _PROG.get("prog")
+    node = None
+    if tab[0] == "glob" and prog is not None and ":" in tab[1]:
+        mname, _, nm = tab[1].partition(":")
+        mod = prog.modules.get(mname)
+        d = mod.defs.get(nm) if mod is not None else None
+        if isinstance(d, ast.Assign):
+            node = d.value
+    if isinstance(node, ast.Call) and util.dotted(node.func) in ("str.maketrans",) and len(node.args) == 1 and isinstance(node.args[0], ast.Dict):
+        out = []
+        for k, v in zip(node.args[0].keys, node.args[0].values):
+            if not (isinstance(k, ast.Constant) and isinstance(k.value, str) and len(k.value) == 1 and isinstance(v, ast.Constant) and isinstance(v.value, str)):
+                return None
+            out.append((k.value, v.value))
+        return out
+    return None
+
+
 def peel_replace(t):
-    """t = base.replace(a1,b1).replace(a2,b2)... -> (base, [(a1,b1),(a2,b2)...]) in application order"""
+    """t = base.replace(a1,b1).replace(a2,b2)... -> (base, [(a1,b1),(a2,b2)...]) in application order;
+    base.translate(str.maketrans({c: r, ...})) is one simultaneous pass: the same pairs, backslash first"""
     chain = []
-    while t[0] == "call" and t[1][0] == "attr" and t[1][2] == "replace" and len(t[2]) >= 2:
+    while t[0] == "call" and t[1][0] == "attr" and ((t[1][2] == "replace" and len(t[2]) >= 2) or (t[1][2] == "translate" and len(t[2]) == 1)):
+        if t[1][2] == "translate":
+            pairs = _translate_table(strip_sites(t[2][0]))
+            if pairs is None:
+                break
+            pairs = sorted(pairs, key=lambda ab: ab[0] != "\\")
+            chain.extend(reversed(pairs))
+            t = t[1][1]
+            continue
         a, b = t[2][0], t[2][1]
         chain.append((a[1] if a[0] == "const" else None, b[1] if b[0] == "const" else None))
         t = t[1][1]
@@ -129,6 +161,7 @@ def unquote(v):
 
 def line_protocol_rules(chk):
     prog = chk.program
+    _PROG["prog"] = prog
     fi = prog.func(LINE)
     name = fi.qual
     mod = fi.module
@@ -382,7 +415,7 @@ def line_slots(prog):
     return {
         "resolution": slots.attr_from_param(prog, cls, "resolution"),
         "defaults": slots.attr_from_expr(prog, cls, lambda v, t: "Mapping" in t and "tags" in t and "set(" not in t, "default tags"),
-        "whitelist": slots.attr_from_expr(prog, cls, lambda v, t: t.startswith("set(tags)") or t.startswith("set(tags.keys())"), "tag whitelist"),
+        "whitelist": slots.attr_from_expr(prog, cls, lambda v, t: ("set(tags)" in t or "set(tags.keys())" in t) and "RECORD_ATTRIBUTES" not in t, "tag whitelist"),
         "blacklist": slots.attr_from_expr(prog, cls, lambda v, t: "RECORD_ATTRIBUTES" in t, "field blacklist"),
     }
 
@@ -429,7 +462,7 @@ def line_formatter_rules(chk):
                 return res_none
             return decide(it, path, term)
 
-        it = Interp(prog, fmt, decide=decide2)
+        it = Interp(prog, fmt, decide=decide2, inline=lambda f, ct: f.cls is cls and f is not fmt and not f.is_async)
         outs = it.run()
         chk.count(len(outs))
         for o in outs:
@@ -573,7 +606,11 @@ def line_formatter_rules(chk):
     for st in ast.walk(init.node):
         if isinstance(st, ast.Assign) and isinstance(st.targets[0], ast.Attribute) and st.targets[0].attr == LS["blacklist"]:
             txt = util.unparse(st.value)
-            if LS["whitelist"] in txt and "RECORD_ATTRIBUTES" in txt and isinstance(st.value, ast.BinOp) and isinstance(st.value.op, ast.BitOr):
+            v = st.value
+            is_union = (isinstance(v, ast.BinOp) and isinstance(v.op, ast.BitOr)) or (
+                isinstance(v, ast.Call) and isinstance(v.func, ast.Attribute) and v.func.attr == "union" and (v.args or isinstance(v.func.value, ast.Call))
+            ) or (isinstance(v, ast.Set) and all(isinstance(e, ast.Starred) for e in v.elts) and len(v.elts) == 2)
+            if LS["whitelist"] in txt and "RECORD_ATTRIBUTES" in txt and is_union:
                 ok_bl = True
             else:
                 chk.bad(rule, init.qual, "the field blacklist is %s (required: whitelist united with the log-record attribute names)" % txt, node=st)
@@ -606,7 +643,7 @@ def json_rules(chk):
                 return False
             return None
 
-        it = Interp(prog, fmt, decide=decide)
+        it = Interp(prog, fmt, decide=decide, inline=lambda f, ct: f.cls is not None and f.cls is fmt.cls and f is not fmt and not f.is_async)
         outs = it.run()
         chk.count(len(outs))
         for o in outs:
